@@ -563,6 +563,29 @@ def occ_core():
     return out
 
 
+
+def flat_split_core():
+    """Deterministic core: an output with a flattened pair AND an independent split of another rank in the same partitioning round, the split
+    to the left / to the right of the pair, by shape / by occupancy (unpartitioning must undo both, in whatever order the sets iterate)."""
+    out = []
+    expr, decl = "Z[m, n, p, q] = A[m, n, p, q] * B[m, n, p, q]", {"A": "mnpq", "B": "mnpq", "Z": "mnpq"}
+    for split, pair in (("M", ("N", "P")), ("Q", ("N", "P")), ("Q", ("M", "N")), ("M", ("P", "Q"))):
+        for how in ("uniform_shape(2)", "uniform_occupancy(A.2)", "nway_shape(2)"):
+            fl = "".join(pair)
+            part = {split: [how], "(%s, %s)" % pair: ["flatten()"]}
+            lo = []
+            for r in "MNPQ":
+                if r == split:
+                    lo += [r + "1", r + "0"]
+                elif r == pair[0]:
+                    lo.append(fl)
+                elif r not in pair:
+                    lo.append(r)
+            y = mk_yaml(updecl(decl), [expr], part={"Z": part}, lo={"Z": lo})
+            out.append({"yaml": y, "configs": [{"M": 3, "N": 2, "P": 2, "Q": 3}], "family": "flatten-split-core", "key": y, "cap": 24})
+    return out
+
+
 F3BASES = [
     ("C[i, r] = T[i, j, k] * B[j, k, r]", {"T": "ijk", "B": "jkr", "C": "ir"}, "T"),
     ("Z[m, n] = A[j, k, m] * B[j, k, n]", {"A": "jkm", "B": "jkn", "Z": "mn"}, "A"),
@@ -686,3 +709,47 @@ def gen_cascade_conv(rng):
     decl = {t: r for t, r in decl.items() if t in used}
     y = mk_yaml(decl, exprs, part=part, lo=lo)
     return {"yaml": y, "configs": [{"Q": 4, "S": 2, "W": 5}], "family": "cascade-conv", "key": y}
+
+
+def gen_st_flat(rng):
+    """Spacetime on specifications with a flattened rank (optionally occupancy-partitioned): the flattened rank may be stamped by
+    position or coordinate, in space or time."""
+    sp = gen_flat(rng)
+    d = __import__("execpipe").load_yaml(sp["yaml"])
+    lo = d["mapping"]["loop-order"]["Z"]
+    space = [r for r in lo if rng.random() < 0.35]
+    time_ = [r for r in lo if r not in space]
+
+    def sty(r):
+        return r + rng.choice(["", ".pos", ".pos", ".coord"])
+
+    st = "  spacetime:\n    Z:\n      space: [%s]\n      time: [%s]\n" % (", ".join(sty(r) for r in space), ", ".join(sty(r) for r in time_))
+    if rng.random() < 0.25:
+        st += "      opt: slip\n"
+    return dict(sp, yaml=sp["yaml"] + st, family="spacetime-flatten", key=sp["key"] + st, stamped=True, no_st_yaml=sp["yaml"])
+
+
+
+def st_flat_core():
+    """Deterministic core of spacetime-on-flattened-rank: every base (one / two co-iterated inputs, with / without the output at the
+    flattened rank) x (flatten alone, flatten + occupancy) x stamp style (position, coordinate, default) x (all in time, innermost
+    flattened level in space).  A position stamp on a tuple-coordinate rank makes the loop an enumerate() over a nested payload."""
+    out = []
+    for expr, decl in FBASES:
+        vs = sorted(set("".join(decl.values())))
+        for occ in (0, 1):
+            for sty in (".pos", ".coord", ""):
+                for inner_space in (False, True):
+                    part = {"(K, M)": ["flatten()"]}
+                    if occ:
+                        part["KM"] = ["uniform_occupancy(A.2)"]
+                    fl = ["KM1", "KM0"] if occ else ["KM"]
+                    lo = fl + [v.upper() for v in vs if v not in "km"]
+                    stamp = [l + (sty if l in fl else "") for l in lo]
+                    space = [x for x in stamp if inner_space and x.startswith(fl[-1])]
+                    time_ = [x for x in stamp if x not in space]
+                    y0 = mk_yaml(updecl(decl), [expr], part={"Z": part}, lo={"Z": lo})
+                    y = y0 + "  spacetime:\n    Z:\n      space: [%s]\n      time: [%s]\n" % (", ".join(space), ", ".join(time_))
+                    out.append({"yaml": y, "configs": [{v.upper(): 2 + (i % 2) for i, v in enumerate(vs)}], "family": "spacetime-flatten", "key": y,
+                                "stamped": True, "no_st_yaml": y0})
+    return out
